@@ -595,3 +595,13 @@ package wallet
 //@     invariant [no-lock-while-choosing] len(toLock) == loopentry(len(toLock))
 //@   loop "range inputs"
 //@     invariant [lock-per-input] len(toLock) == loopentry(len(toLock)) + rangeindex + 1 && len(txn.SiacoinInputs) == loopentry(len(txn.SiacoinInputs)) + rangeindex + 1
+//
+// Event.SiacoinOutflow (C06, the inflow/outflow equation): the sum itself is not proved (no
+// induction), but two facts every sum has: the running total never shrinks and, after an input of
+// a relevant address has been looked at, it is at least that input's value -- so no such input,
+// confirmed or created in the same block, is left out of a v2 transaction's outflow.
+//@ func (*Event).SiacoinOutflow props C06
+//@   requires e != nil
+//@   loop "range data.SiacoinInputs"
+//@     invariant [relevant-frozen] relevant == loopentry(relevant) && snapshot(relevant) == loopentry(snapshot(relevant))
+//@     invariant [every-relevant-input-counted] forall k int :: { e.Data.(EventV2Transaction).SiacoinInputs[k] } 0 <= k && k <= rangeindex && relevant[e.Data.(EventV2Transaction).SiacoinInputs[k].Parent.SiacoinOutput.Address] ==> cval(inflow) >= cval(e.Data.(EventV2Transaction).SiacoinInputs[k].Parent.SiacoinOutput.Value)
